@@ -54,7 +54,32 @@ func corpus(coreMax, richMax int) (progs []*Prog, nCore int) {
 	progs = Programs(Core(), []term.Ty{B}, coreMax)
 	nCore = len(progs)
 	progs = append(progs, Programs(Rich(), []term.Ty{B, I}, richMax)...)
+	progs = append(progs, widePrograms(5)...)
 	return progs, nCore
+}
+
+// widePrograms: operators with 2..7 operands whose result depends on the
+// ORDER of the operands (registered variadic `cat`, builtin - and /), bare and
+// in and/or/if contexts: the engine copies n-ary operands off the stack, uses
+// a two-slot buffer for binary ones and inlines two-leaf ones.
+func widePrograms(maxAr int) []*Prog {
+	var out []*Prog
+	for k := 2; k <= maxAr; k++ {
+		kids := func() []*term.Term {
+			ks := make([]*term.Term, k)
+			for i := range ks {
+				ks[i] = term.Var("n", I)
+			}
+			return ks
+		}
+		cat := term.Op("cat", I, kids()...)
+		sub := term.Op("-", I, kids()...)
+		out = append(out, MkProg(cat), MkProg(sub),
+			MkProg(term.Op("and", B, term.Var("b", B), term.Op("=", B, cat.Clone(), term.Const(4)))),
+			MkProg(term.If(term.Var("b", B), sub.Clone(), term.Op("cat", I, append(kids()[:k-1], term.Op("/", I, term.Const(1), term.Var("n", I)))...))),
+			MkProg(term.Op("cat", I, term.Op("cat", I, kids()...), term.Const(1), term.Op("-", I, kids()[:2]...))))
+	}
+	return out
 }
 
 // withAliases appends, for every program of at most aliasMax nodes, its two
